@@ -778,11 +778,13 @@ pub enum ExtendedProtocolData {
     },
     Bind {
         data: BytesMut,
-        metadata: Option<String>,
+        /// Client-given name and the statement it referred to when the message was read
+        metadata: Option<(String, Arc<Parse>, u64)>,
     },
     Describe {
         data: BytesMut,
-        metadata: Option<String>,
+        /// Client-given name and the statement it referred to when the message was read
+        metadata: Option<(String, Arc<Parse>, u64)>,
     },
     Execute {
         data: BytesMut,
@@ -798,11 +800,14 @@ impl ExtendedProtocolData {
         Self::Parse { data, metadata }
     }
 
-    pub fn create_new_bind(data: BytesMut, metadata: Option<String>) -> Self {
+    pub fn create_new_bind(data: BytesMut, metadata: Option<(String, Arc<Parse>, u64)>) -> Self {
         Self::Bind { data, metadata }
     }
 
-    pub fn create_new_describe(data: BytesMut, metadata: Option<String>) -> Self {
+    pub fn create_new_describe(
+        data: BytesMut,
+        metadata: Option<(String, Arc<Parse>, u64)>,
+    ) -> Self {
         Self::Describe { data, metadata }
     }
 
